@@ -121,7 +121,7 @@ func PackValues(format string, values []rt.Value, budget uint64) (string, uint64
 			_ = p.align(0) &&
 				p.writeByte(0)
 		case 'X':
-			p.alignOnly = true
+			p.alignNext()
 		case ' ':
 			// ignored
 		default:
